@@ -1009,6 +1009,64 @@ def rule_startswith(ctx, sig, body, arg):
     return sig, body
 
 
+def rule_contelse(ctx, sig, body, arg):
+    """@rule contelse: inside a `for` body, a statement `if COND { continue; }` (directly in the body, no else) followed by the rest R of
+    the body becomes `if COND {} else { R }`: the same control flow (continue = skip the rest of this iteration).  Verus does not
+    support `continue` in for-loops."""
+    n = 0
+    while True:
+        toks = tokenize(body)
+        ct = code_tokens(toks)
+        done = True
+        for i, t in enumerate(ct):
+            if not (t.kind == 'ident' and t.text == 'for' and i > 0 and ct[i - 1].text in (';', '{', '}')):
+                continue
+            k = i + 1
+            while ct[k].text != '{':
+                if ct[k].text in ('(', '['):
+                    k = match_close(ct, k)
+                k += 1
+            close = match_close(ct, k)
+            # statements directly in the body
+            j = k + 1
+            depth = 0
+            hit = None
+            while j < close:
+                tx = ct[j].text
+                if depth == 0 and ct[j].kind == 'ident' and tx == 'if' and ct[j - 1].text in (';', '{', '}'):
+                    b = j + 1
+                    while ct[b].text != '{':
+                        if ct[b].text in ('(', '['):
+                            b = match_close(ct, b)
+                        b += 1
+                    bc = match_close(ct, b)
+                    inner = [x.text for x in ct[b + 1:bc]]
+                    if inner == ['continue', ';'] and ct[bc + 1].text != 'else':
+                        hit = (j, b, bc)
+                        break
+                    j = bc + 1
+                    continue
+                if tx in '([{':
+                    depth += 1
+                elif tx in ')]}':
+                    depth -= 1
+                j += 1
+            if hit:
+                j, b, bc = hit
+                before = body[ct[j].pos:ct[bc].end]
+                new_if = body[ct[j].pos:ct[b].end] + '}' + ' else {'
+                body = body[:ct[j].pos] + new_if + body[ct[bc].end:ct[close].pos] + '}\n' + body[ct[close].pos:]
+                ctx.note('R-contelse', before, new_if + ' <rest of the loop body> }')
+                n += 1
+                done = False
+                break
+        if done:
+            break
+    if n == 0:
+        raise RuleError('no `if COND { continue; }` directly inside a for body')
+    return sig, body
+
+
 def rule_mapcollect2(ctx, sig, body, arg):
     """@rule mapcollect2 <ElemType>: `let V = X .into_iter() .map(F) .collect::<Vec<_>>();` (F a function path, X a Vec of Copy items)
     -> `let mc__src = X; let mut V: Vec<ElemType> = Vec::new(); for mc__e in mc__src.iter() { V.push(F(*mc__e)); }`
